@@ -127,7 +127,7 @@ namespace ratio
         return new var_item(*this, tp, ov_th.new_var(std::vector<var_value *>(allowed_vals.cbegin(), allowed_vals.cend())));
     }
 
-    expr core::new_enum(type &tp, const std::vector<lit> &lits, const std::vector<item *> &vals) noexcept
+    expr core::new_enum(type &tp, const std::vector<lit> &lits, const std::vector<item *> &vals)
     {
         if (tp.get_name() == BOOL_KEYWORD)
         {
@@ -341,35 +341,35 @@ namespace ratio
 
     CORE_EXPORT arith_expr core::minus(arith_expr ex) noexcept { return new arith_item(*this, ex->get_type(), -ex->l); }
 
-    CORE_EXPORT bool_expr core::lt(arith_expr left, arith_expr right) noexcept
+    CORE_EXPORT bool_expr core::lt(arith_expr left, arith_expr right)
     {
         if (get_type({left, right}).get_name() == TP_KEYWORD)
             return new bool_item(*this, rdl_th.new_lt(left->l, right->l));
         else
             return new bool_item(*this, lra_th.new_lt(left->l, right->l));
     }
-    CORE_EXPORT bool_expr core::leq(arith_expr left, arith_expr right) noexcept
+    CORE_EXPORT bool_expr core::leq(arith_expr left, arith_expr right)
     {
         if (get_type({left, right}).get_name() == TP_KEYWORD)
             return new bool_item(*this, rdl_th.new_leq(left->l, right->l));
         else
             return new bool_item(*this, lra_th.new_leq(left->l, right->l));
     }
-    CORE_EXPORT bool_expr core::eq(arith_expr left, arith_expr right) noexcept
+    CORE_EXPORT bool_expr core::eq(arith_expr left, arith_expr right)
     {
         if (get_type({left, right}).get_name() == TP_KEYWORD)
             return new bool_item(*this, rdl_th.new_eq(left->l, right->l));
         else
             return new bool_item(*this, lra_th.new_eq(left->l, right->l));
     }
-    CORE_EXPORT bool_expr core::geq(arith_expr left, arith_expr right) noexcept
+    CORE_EXPORT bool_expr core::geq(arith_expr left, arith_expr right)
     {
         if (get_type({left, right}).get_name() == TP_KEYWORD)
             return new bool_item(*this, rdl_th.new_geq(left->l, right->l));
         else
             return new bool_item(*this, lra_th.new_geq(left->l, right->l));
     }
-    CORE_EXPORT bool_expr core::gt(arith_expr left, arith_expr right) noexcept
+    CORE_EXPORT bool_expr core::gt(arith_expr left, arith_expr right)
     {
         if (get_type({left, right}).get_name() == TP_KEYWORD)
             return new bool_item(*this, rdl_th.new_gt(left->l, right->l));
